@@ -257,7 +257,7 @@ func (vc *VC) havocCall(call *ast.CallExpr, callee *types.Func, st *State, why s
 			}
 		}
 	}
-	for _, a := range call.Args {
+	for i, a := range call.Args {
 		at := vc.typeOf(a)
 		if at == nil {
 			continue
@@ -265,6 +265,14 @@ func (vc *VC) havocCall(call *ast.CallExpr, callee *types.Func, st *State, why s
 		switch vc.underlying(at).(type) {
 		case *types.Pointer:
 			vc.havocLvalue(a, st)
+		case *types.Map, *types.Slice:
+			// a callee that is neither inlined nor under contract may write the
+			// entries of a map or the elements of a slice it is handed
+			// (maps.DeleteFunc, maps.Copy, a helper that fills a map); which
+			// callees do not is taken from the frame checker's summaries
+			if vc.calleeMayWriteArg(callee, i) {
+				vc.havocContents(a, st)
+			}
 		}
 	}
 	if se, ok := ast.Unparen(call.Fun).(*ast.SelectorExpr); ok {
